@@ -117,7 +117,7 @@ def model(fem, cls, case, transform=None):
     return mesh, Xref, fc, um, dim
 
 
-def boundaries(fem, fc, Xref, case, dim):
+def boundaries(fem, fc, Xref, case, dim, edge=False):
     f = fc.fields[0]
     x = Xref[:, 0]
     left = np.isclose(x, x.min())
@@ -126,7 +126,13 @@ def boundaries(fem, fc, Xref, case, dim):
     if all(skip):
         skip = (0,) * dim
     if case["bc"] == "face":
-        return {"fix": fem.Boundary(f, mask=left)}
+        b_ = {"fix": fem.Boundary(f, mask=left)}
+        P_ = np.asarray(f.region.mesh.points)
+        if edge and dim == 3 and case["seed"] % 2 == 0 and P_.shape == Xref.shape and np.allclose(P_, Xref):  # (coordinate planes: un-moved meshes only)
+            # an additional pin of one edge of the free end face, selected by two coordinate planes combined with mode="and" (fewer
+            # planes than the mesh has dimensions)
+            b_["edge"] = fem.Boundary(f, fx=float(x.max()), fy=float(Xref[:, 1].min()), mode="and")
+        return b_
     # every other dictionary comes from a static analysis: its second boundary still carries a prescribed value (a modal analysis
     # constrains those unknowns all the same - mode shapes vanish there)
     vkw = {"value": 0.2} if case["seed"] % 2 else {}
@@ -157,6 +163,32 @@ def assemble_pencil(fem, fc, um, rho, bounds):
     M.resize(n, n)
     dof0, dof1 = partition_model(fc, bounds)
     return K, M, dof0, dof1
+
+
+def boundary_dofs_model(fem, fc, Xref, case, dim, bounds):
+    """unknowns the displacement boundaries of `boundaries()` prescribe, from their definition (point mask x components that are not
+    skipped) - not from the Boundary objects: name -> sorted local unknown numbers of the first field"""
+    x = Xref[:, 0]
+    left, right = np.isclose(x, x.min()), np.isclose(x, x.max())
+    skip = tuple(int(s) for s in case["skip"][:dim])
+    if all(skip):
+        skip = (0,) * dim
+    comps_all = list(range(dim))
+    out = {}
+
+    def dofs(mask, comps):
+        return np.sort((np.where(mask)[0][:, None] * dim + np.array(comps)[None, :]).ravel())
+
+    if "fix" in bounds:
+        if case["bc"] in ("face", "face-partial", "two-faces"):
+            out["fix"] = dofs(left, comps_all)
+    if "part" in bounds:
+        out["part"] = dofs(right, [c_ for c_ in comps_all if not skip[c_]])
+    if "fix2" in bounds:
+        out["fix2"] = dofs(right, comps_all)
+    if "edge" in bounds:
+        out["edge"] = dofs(right & np.isclose(Xref[:, 1], Xref[:, 1].min()), comps_all)
+    return out
 
 
 def partition_model(fc, bounds):
@@ -193,7 +225,9 @@ def check(cls, case, rec):
     # every fourth case: the boundaries live on a separate global field container that is handed over as x0 (multi-body
     # workflow); the items keep containers of their own
     xg = fc.copy() if case["seed"] % 4 == 3 else None
-    bounds = boundaries(fem, xg if xg is not None else fc, Xref, case, dim)
+    bounds = boundaries(fem, xg if xg is not None else fc, Xref, case, dim, edge=True)
+    for nm_, d_ in boundary_dofs_model(fem, fc, Xref, case, dim, bounds).items():
+        rec.require("boundary-prescribes-mask-x-unskipped-components", np.array_equal(np.sort(np.asarray(bounds[nm_].dof).ravel()), d_), {"boundary": nm_, "got": int(np.asarray(bounds[nm_].dof).size), "model": int(d_.size)})
     if cls == "mixed-hexahedron" and case["seed"] % 4 == 1 and xg is None:
         # the pressure held in every second cell: a boundary on the SECOND field only (its twin on the same region stays free; the
         # volume ratio of those cells keeps its own stiffness, so the massless block stays regular)
